@@ -94,6 +94,151 @@ def consumer_of(mir, body, bi):
     return None
 
 
+LOSSLESS = {"hash", "iter", "for_each", "to_be_bytes", "to_le_bytes", "to_bits", "deref", "as_ref", "clone", "as_str", "as_bytes", "borrow", "into_iter", "map", "collect", "to_string", "as_slice"}
+MACRO_HASH_IMPLS = {
+    "data_type::value::Value": "written inside the `impl_variant_conversions!`-style macro of value.rs: hashes the discriminant and then the payload of every variant ($Variant(variant) => variant.hash(state))",
+}
+FIELD_EXEMPT = {
+    ("data_type::intervals::Intervals", "capacity"): "representation budget (how many intervals are kept before collapsing to the hull): not part of the set of values, never rendered",
+}
+POINTER_HASH = {
+    "data_type::value::Function": "hashes the address of the Arc<dyn Function>: run-dependent, tolerated only while no constructor of value::Function is reachable from PARSE u RENDER u TYPE (checked)",
+}
+
+
+def d5(rep, R, seen):
+    """content hash completeness of the generated names"""
+    from .core import Src, find, walk, show, path_of
+
+    rep.rule(
+        "D5",
+        "content-derived names hash the whole content: every local `impl Hash` whose `hash` is reachable from PARSE u RENDER u TYPE (they feed namer::name_from_content) is either derived "
+        "(all fields) or a manual impl that passes every field of the struct / the payload of every variant to the hasher through copying projections only "
+        "(iter, deref, to_be_bytes ..; no accessor such as .name() or .len()); pointer-address hashing only for types that cannot be constructed in scope",
+        floor=40,
+        necessary="a Hash that skips a field gives two different relations the same generated name: their CTEs collide in the rendered SQL and the re-parsed query reads one input twice (or names differ between runs for address-based hashes)",
+    )
+    g, mir = R.g, R.mir
+    src = Src(facts.src_facts())
+    types = {}
+    for i in seen:
+        n = g.nodes[i]
+        m = re.match(r"^<(.+) as std::hash::Hash>::hash$", n["p"])
+        if m and n["l"]:
+            types[m.group(1)] = i
+    manual = {}
+    for (file, module, it) in src.impls:
+        if it.get("test") or not (it.get("trait") or "").endswith("Hash"):
+            continue
+        base = re.sub(r"<.*$", "", it["self_ty"]).split("::")[-1]
+        manual[(module, base)] = (file, it)
+    for ty in sorted(types):
+        base_path = re.sub(r"<.*$", "", ty)
+        module, base = base_path.rsplit("::", 1) if "::" in base_path else ("", base_path)
+        key = "Hash:" + base_path
+        cands = [(mm, b) for (mm, b) in manual if b == base and mm == module]
+        defs = [(f, mm, it) for kind in ("struct", "enum") for (f, mm, it) in src.find_items(kind, name=base) if mm == module]
+        if not cands:
+            derived = [d for d in defs if any("derive" in a and re.search(r"\bHash\b", a) for a in d[2].get("attrs", []))]
+            if derived:
+                rep.instance("D5", key, {"type": base_path, "impl": "derived"}, nontrivial=False)
+            elif base_path in MACRO_HASH_IMPLS:
+                rep.instance("D5", key, {"type": base_path, "impl": "macro (reviewed)", "reason": MACRO_HASH_IMPLS[base_path]})
+            else:
+                rep.undecidable("D5", key, "cannot find the Hash impl of %s in the sources (neither derive nor manual impl)" % base_path, "")
+            continue
+        file, it = manual[cands[0]]
+        fns = [x for x in it["items"] if x["k"] == "fn" and x["name"] == "hash"]
+        where = "src/%s:%d" % (file, it["l"])
+        if not fns or not defs:
+            rep.undecidable("D5", key, "manual impl without readable `hash` / type definition", where)
+            continue
+        body = fns[0]["body"]
+        d = defs[0][2]
+        if base_path in POINTER_HASH:
+            ctor = [b["path"] for b in mir.bodies if b["path"] in R.reach(SCOPE)[1] and not b["path"].endswith("::clone") and any(st[1][0] == "agg" and st[1][1] == "adt:" + base_path for bl in b["blocks"] for st in bl["s"])]
+            rep.instance("D5", key, {"type": base_path, "impl": "address", "constructors_in_scope": ctor, "reason": POINTER_HASH[base_path]})
+            if ctor:
+                rep.violation("D5", key, "%s is hashed by address and constructed in scope by %s: generated names differ between runs" % (base_path, ctor[:3]), where)
+            continue
+        if any(is_ptr(c) for c in walk(body)):
+            rep.violation("D5", key, "%s hashes a pointer address" % base_path, where)
+            continue
+        if d["k"] == "struct":
+            fields = [f["name"] for f in d["fields"]]
+            cover, lossy = set(), []
+            whole = False
+            for x in walk(body):
+                if x["k"] == "mcall":
+                    r, chain = x, []
+                    while r["k"] in ("mcall", "ref", "paren", "unary"):
+                        if r["k"] == "mcall":
+                            chain.append(r["m"])
+                            r = r["recv"]
+                        else:
+                            r = r["e"]
+                    if r["k"] == "field" and path_of(r["e"]) == "self":
+                        cover.add(r["f"] if "f" in r else r.get("name"))
+                        lossy += ["self.%s.%s()" % (r.get("f", r.get("name")), m) for m in chain if m not in LOSSLESS]
+                if x["k"] == "field" and path_of(x["e"]) == "self":
+                    cover.add(x.get("f", x.get("name")))
+            missing = [f for f in fields if f not in cover and (base_path, f) not in FIELD_EXEMPT]
+            rep.instance("D5", key, {"type": base_path, "impl": "manual", "fields": fields, "exempt": {f: FIELD_EXEMPT[(base_path, f)] for f in fields if (base_path, f) in FIELD_EXEMPT}, "hashed": sorted(c for c in cover if c), "lossy": lossy})
+            if missing:
+                rep.violation("D5", key + "@fields", "the manual Hash of %s skips field(s) %s" % (base_path, missing), where)
+            if lossy:
+                rep.violation("D5", key + "@projection", "the manual Hash of %s hashes a projection of its content (%s), not the content" % (base_path, sorted(set(lossy))), where)
+        else:
+            with_payload = [v["name"] for v in d["variants"] if v.get("fields")]
+            ms = [m for m in find(body, "match")]
+            got = set()
+            lossy = []
+            for m in ms:
+                for a in m["arms"]:
+                    pats = a["pat"]["cases"] if a["pat"]["k"] == "or" else [a["pat"]]
+                    for p in pats:
+                        if p["k"] in ("tuplestruct", "struct"):
+                            v = p["path"]["segs"][-1]
+                            binds = pat_binds_local(p)
+                            used = all(any(path_of(rr) == b for rr in walk(a["body"])) for b in binds) and bool(binds)
+                            if used:
+                                got.add(v)
+                            for x in find(a["body"], "mcall"):
+                                r, chain = x, []
+                                while r["k"] == "mcall":
+                                    chain.append(r["m"])
+                                    r = r["recv"]
+                                if path_of(r) in binds:
+                                    lossy += ["%s.%s()" % (v, mm) for mm in chain if mm not in LOSSLESS]
+            missing = [v for v in with_payload if v not in got]
+            disc = any("discriminant" in show(c, 0) for c in find(body, "call"))
+            rep.instance("D5", key, {"type": base_path, "impl": "manual", "variants_with_payload": with_payload, "payload_hashed": sorted(got), "discriminant": disc})
+            if missing:
+                rep.violation("D5", key + "@variants", "the manual Hash of %s ignores the payload of %s" % (base_path, missing), where)
+            if not disc:
+                rep.violation("D5", key + "@discriminant", "the manual Hash of %s does not hash the variant" % base_path, where)
+            if lossy:
+                rep.violation("D5", key + "@projection", "the manual Hash of %s hashes a projection of a payload (%s)" % (base_path, sorted(set(lossy))), where)
+
+
+def is_ptr(c):
+    from .core import path_of
+
+    if c["k"] == "call" and (path_of(c["f"]) or "").endswith(("Arc::as_ptr", "Rc::as_ptr", "ptr::addr_of", "ptr::from_ref")):
+        return True
+    if c["k"] == "mcall" and c["m"] in ("as_ptr", "addr"):
+        return True
+    if c["k"] == "cast" and "*const" in str(c.get("ty", "")):
+        return True
+    return False
+
+
+def pat_binds_local(p):
+    from .core import pat_binds
+
+    return [b for b in pat_binds(p)]
+
+
 def run(rep):
     rep.explanation = (
         "Inventory by reachability over the instantiation-aware call graph of crate qrlew (rustc MIR, cargo +nightly check --lib). "
@@ -281,4 +426,5 @@ def run(rep):
         for rx, what in AMBIENT:
             if rx.search(n["p"]) and seen_rw[i] is not None and g.nodes[seen_rw[i]]["l"]:
                 obs.append({"rule": "D4", "site": "%s->%s" % (g.nodes[seen_rw[i]]["p"], n["p"]), "what": what})
+    d5(rep, R, seen)
     rep.extra["observations_rewrite_scope"] = obs[:60]
